@@ -385,9 +385,55 @@ def _target_names(t):
     return {n.id for n in ast.walk(t) if isinstance(n, ast.Name)}
 
 
+# abstract records used by the contracts (Obj('<name>', ...)) and the real classes whose methods they stand for: a contract written
+# for `<name>.<method>` sees the call in positional AND keyword form, whatever style the code under contract uses (see
+# Interp.positional_form), by reading the parameter names of the real method
+ABSTRACT_CLASSES = {
+    'NA': ['backends.node_array.NodeArray'],
+    'TMps': ['backends.pt_tebd_backend.PtTebdBackend'],
+    'BathM': ['bath.Bath'],
+    'DynM': ['dynamics.Dynamics'], 'DynRec': ['dynamics.Dynamics'], 'MFDyn': ['dynamics.MeanFieldDynamics'],
+    'AMps': ['mps_mpo.AugmentedMPS'], 'TebdProp': ['mps_mpo.TebdPropagator'],
+    'MFS': ['system.MeanFieldSystem'], 'Control': ['control.Control'], 'ChainCtl': ['control.ChainControl'],
+    'ParamsM': ['tempo.TempoParameters'], 'Prog': ['util.ProgressBar'], 'Progress': ['util.ProgressBar'],
+    'BTB': ['backends.tempo_backend.BaseTempoBackend'], 'TempoBackend': ['backends.tempo_backend.TempoBackend'],
+    'MFBackend': ['backends.tempo_backend.MeanFieldTempoBackend'], 'MFB': ['backends.tempo_backend.MeanFieldTempoBackend'],
+    'TIBackend': ['backends.tempo_backend.TIBaseBackend'], 'PtBackend': ['backends.pt_tempo_backend.PtTempoBackend'],
+    'Corr': ['bath_correlations.CustomSD', 'bath_correlations.BaseCorrelations'], 'CorrM': ['bath_correlations.CustomSD', 'bath_correlations.BaseCorrelations'],
+}
+for _n in ('PTm', 'PT', 'PTi', 'PTM', 'PTObj', 'PTrec', 'PTsite'):
+    ABSTRACT_CLASSES[_n] = ['process_tensor.SimpleProcessTensor', 'process_tensor.FileProcessTensor', 'process_tensor.BaseProcessTensor']
+for _n in ('SysM', 'Sys', 'System', 'SystemF', 'PSys', 'PSystem', 'TDS'):
+    ABSTRACT_CLASSES[_n] = ['system.System', 'system.TimeDependentSystem', 'system.TimeDependentSystemWithField', 'system.ParameterizedSystem',
+                            'system.BaseSystem']
+
+
+class ModelTable(dict):
+    """callee contracts by qualified name; `patterns` = [(compiled regex, model)] answer for names that have no exact entry (a helper
+    that was moved or given a leading underscore keeps its contract)"""
+
+    def __init__(self, *a, **k):
+        super().__init__(*a, **k)
+        self.patterns = []
+
+    def get(self, key, default=None):
+        if dict.__contains__(self, key):
+            return dict.__getitem__(self, key)
+        if isinstance(key, str):
+            for rx, m in self.patterns:
+                if rx.search(key):
+                    return m
+        return default
+
+    def copy(self):
+        t = ModelTable(self)
+        t.patterns = list(self.patterns)
+        return t
+
+
 class Registry:
     def __init__(self):
-        self.models = {}
+        self.models = ModelTable()
         self.model_properties = set()
         self.model_bases = {}
         self.lib_models = {}
